@@ -15,6 +15,14 @@ CLAIMED = {
     ),
 }
 
+CLAIMED["C18"] = dict(
+    level="fault_enumeration",
+    design="DESIGN.md 4 (C18)",
+    technique="deterministic simulation with fault injection: simulated output endpoint failing at every byte offset / at Close, under the seeded scheduler, outcome classification fatal vs silent loss",
+    text="A write fault (short count + sticky error) is injected at every absolute byte offset of a small output and at stratified offsets of outputs up to >64 KiB, and a Close fault, below the real bufio/pgzip stack of the real FASTA/FASTQ/JSON/CSV writers, for varied arrival orders, worker counts and seeded schedules; a run must end in a captured non-zero exit whenever the fault fired. Enumeration of the fault space on a fixed corpus, sampling beyond it.",
+    note="Trusted: SimWriteCloser as a model of a failing file (short write + error, error sticky; Close error after release). The command-level path (real main, /dev/full) is covered by the command stage of this check once built; until then the claim is about the writer layer the commands call.",
+)
+
 PENDING = {
 }
 
